@@ -1,10 +1,14 @@
 //! C11 — binary Merkle trees behave like fresh trees across reset and reload.
 //! History templates are concrete words over {Push, Reset, Load(k)}; leaf bytes and the
-//! final proof index are symbolic.  Bound: at most 2 live leaves at any time (DESIGN P18).
+//! final proof index are symbolic.  Small templates (<= 2 live leaves) with every clause; larger
+//! templates (up to 8 live leaves) with count, root and selected proof indices.
 use crate::mk::*;
 use fuel_merkle::binary::MerkleTree;
 
-type Tree = MerkleTree<NodesT, StPtr<8>>;
+/// storage slots / maximal number of live leaves of a template
+pub const ST: usize = 32;
+pub const MAXL: usize = 8;
+type Tree = MerkleTree<NodesT, StPtr<ST>>;
 
 /// Leaf bytes wrapped in a struct: Kani 0.68 mis-models unsizing `&arr_of_byte_arrays[k]` (k >= 1)
 /// of a mutable local `[[u8; N]; M]` (found while building this harness; see DESIGN K8).
@@ -27,17 +31,17 @@ fn eq_proofs(a: &(B32, Vec<B32>), b: &(B32, Vec<B32>)) -> bool {
 
 /// Run `ops` on one tree and build a fresh tree from the ghost list of live leaves.
 /// Returns (tree, fresh, live leaves, number of live leaves).
-fn run_history(ops: &[Op], st: *mut ArrStorage<8>, st2: *mut ArrStorage<8>) -> (Tree, Tree, [Leaf; 2], usize) {
+fn run_history(ops: &[Op], st: *mut ArrStorage<ST>, st2: *mut ArrStorage<ST>) -> (Tree, Tree, [Leaf; MAXL], usize) {
     let sp = StPtr(st);
     let mut tree: Tree = MerkleTree::new(sp);
-    let mut live: [Leaf; 2] = [Leaf { b: [0; 2] }; 2];
+    let mut live: [Leaf; MAXL] = [Leaf { b: [0; 2] }; MAXL];
     let mut n_live: usize = 0;
     let mut i = 0;
     while i < ops.len() {
         match ops[i] {
             P => {
                 let leaf = Leaf { b: kani::any() };
-                assert!(n_live < 2, "template holds at most 2 live leaves");
+                assert!(n_live < MAXL, "template holds at most MAXL live leaves");
                 tree.push(&leaf.b).unwrap();
                 live[n_live] = leaf;
                 n_live += 1;
@@ -58,7 +62,7 @@ fn run_history(ops: &[Op], st: *mut ArrStorage<8>, st2: *mut ArrStorage<8>) -> (
 }
 
 fn check_count(ops: &[Op]) {
-    let (mut st, mut st2) = (ArrStorage::<8>::new(), ArrStorage::<8>::new());
+    let (mut st, mut st2) = (ArrStorage::<ST>::new(), ArrStorage::<ST>::new());
     let (tree, fresh, _live, n_live) = run_history(ops, &mut st, &mut st2);
     assert!(tree.leaves_count() == n_live as u64);
     assert!(fresh.leaves_count() == n_live as u64);
@@ -67,11 +71,13 @@ fn check_count(ops: &[Op]) {
 }
 
 fn check_root(ops: &[Op]) {
-    let (mut st, mut st2) = (ArrStorage::<8>::new(), ArrStorage::<8>::new());
+    let (mut st, mut st2) = (ArrStorage::<ST>::new(), ArrStorage::<ST>::new());
     let (tree, fresh, live, n_live) = run_history(ops, &mut st, &mut st2);
     assert!(eq32(&tree.root(), &fresh.root()));
     // and the fresh root is the RFC 6962 tree hash of the live leaves
-    let hs = [h_leaf(&live[0].b), h_leaf(&live[1].b)];
+    let mut hs = [[0u8; 32]; MAXL];
+    let mut k = 0;
+    while k < n_live { hs[k] = h_leaf(&live[k].b); k += 1; }
     assert!(eq32(&fresh.root(), &mth(&hs[..n_live])));
     kani::cover!(true, "history completed");
     core::mem::forget(tree); core::mem::forget(fresh);
@@ -80,7 +86,7 @@ fn check_root(ops: &[Op]) {
 /// `j`: concrete proof index (0, 1, 2 and three far-out representatives: a symbolic index makes
 /// CBMC explore the path iterator with a symbolic leaf position, which does not finish).
 fn check_prove(ops: &[Op], j: Option<u64>) {
-    let (mut st, mut st2) = (ArrStorage::<8>::new(), ArrStorage::<8>::new());
+    let (mut st, mut st2) = (ArrStorage::<ST>::new(), ArrStorage::<ST>::new());
     let (tree, fresh, _live, n_live) = run_history(ops, &mut st, &mut st2);
     let j = match j { Some(j) => j, None => { let j: u64 = kani::any(); kani::assume(j >= 3); j } };
     let a = tree.prove(j);
@@ -119,6 +125,26 @@ macro_rules! history {
         }
     };
 }
+/// Larger histories (3..8 live leaves): proofs at selected indices and the count.
+macro_rules! big_history {
+    ($name:ident, [$($op:expr),*], [$($j:literal),*]) => {
+        pub mod $name {
+            use super::*;
+            const OPS: &[Op] = &[$($op),*];
+            h!(c11_count, check_count(OPS));
+            h!(c11_root, check_root(OPS));
+            h!(c11_prove_sel, { $( check_prove(OPS, Some($j)); )* });
+        }
+    };
+}
+big_history!(h_p3rp2, [P, P, P, R, P, P], [0, 1, 2]);
+big_history!(h_p3l2p, [P, P, P, L(2), P], [0, 2, 3]);
+big_history!(h_p4rp3, [P, P, P, P, R, P, P, P], [0, 2, 3]);
+big_history!(h_p4l3, [P, P, P, P, L(3)], [0, 2, 3]);
+big_history!(h_p8rp7, [P, P, P, P, P, P, P, P, R, P, P, P, P, P, P, P], [0, 6, 7]);
+big_history!(h_p8l7, [P, P, P, P, P, P, P, P, L(7)], [0, 6, 7]);
+big_history!(h_p5rp5, [P, P, P, P, P, R, P, P, P, P, P], [3, 4, 5]);
+
 history!(h_p, [P]);
 history!(h_pp, [P, P]);
 history!(h_pr, [P, R]);
